@@ -1,27 +1,28 @@
 SPECIFICATION MCSpec
 CONSTANTS
-  TxDef <- FTx
-  Heads <- FHeads
+  TxDef <- Tx2
+  Heads <- Heads1
   CLimit = 2
   CLimitPerAccount = 2
   CLifetime = "never"
   CIdentityCheck = TRUE
-  Sources = {"remote", "local"}
-  Stricts = {FALSE, TRUE}
-  MaxGen = 3
-  AllOrders = TRUE
+  Sources = {"remote"}
+  Stricts = {FALSE}
+  MaxGen = 2
+  AllOrders = FALSE
   StaleEval = FALSE
   Blockable = {}
-  Record = TRUE
-  MaxSteps = 26
-  Sample = TRUE
-  Variant = "fork"
-  SplitAdd = "off"
-INVARIANT ExportDone
-INVARIANT QuotaExact
+  Record = FALSE
+  MaxSteps = 0
+  Sample = FALSE
+  Variant = "base"
+  SplitAdd = "outside"
+INVARIANT QuotaExactOrExport
 INVARIANT CostExact
 INVARIANT NeverLockedOut
 INVARIANT DropHasReason
 INVARIANT ExecutablesSorted
 INVARIANT MapsConsistent
+INVARIANT FlagImpliesPriced
 CHECK_DEADLOCK FALSE
+VIEW MCView
